@@ -28,7 +28,7 @@ ASSUMPTIONS = [
     'BOUNDED part (not decidable by this family): conversions back to Kraus form (numpy.linalg.eigh), data-processing inequalities (trace distance, fidelity, relative entropy: spectral functions), entropy ranges, torch branches',
     'sizes: dim_in, dim_out in 1..3 (4 thorough), 1..3 (4) Kraus terms, operators and input fully symbolic complex',
 ]
-STUBS = []
+STUBS = ['numpy.linalg.eigh -> assumed contract (fixed rational eigenvalues, symbolic eigenvector matrix) in choi_op_to_kraus_op.plumbing']
 NUMPY_MODELS = []
 BOUNDED_RULE = ('seeded random channels with dim_in, dim_out in 1..5 and 1..dim_in*dim_out Kraus terms (incl. rank-deficient Choi operators, isometries, unitaries), random full-rank/low-rank/pure inputs: '
                 'Choi/super-op -> Kraus round trips reproduce the channel output; trace distance does not increase, fidelity does not decrease, relative entropy does not increase; fidelity symmetric in [0,1]; '
@@ -201,7 +201,82 @@ NOISE = Id('noise_channels', ['numqi.channel._internal:hf_dephasing_kraus_op', '
            sample=lambda rng, fn: dict(fn=fn, rate=float(rng.uniform(0, 1)), rho=_rc(rng, 2, 2)), label=lambda fn: f'{fn},rate symbolic in [0,1]')
 NOISE.comparable = lambda r: [r['K']]
 
-CONTRACTS = {c.name: c for c in [EQUIV, CONV, BLOCH, NOISE]}
+# ---- conversions back to Kraus form: numpy.linalg.eigh is replaced by its ASSUMED contract (eigenvalues ascending, columns = eigenvectors,
+# op = V diag(w) V^dagger). The stub hands back fixed rational eigenvalues (n0 of them zero, the rest positive) and a fully SYMBOLIC complex matrix V
+# (not even assumed unitary). Proved: the Gram/Choi matrix of the returned Kraus operators (through the real, already proved kraus_op_to_choi_op) is
+# V[:, n0:] diag(w[n0:]) V[:, n0:]^dagger, i.e. exactly the part of the spectral decomposition above the threshold; shape (D-n0, dout, din);
+# super_op_to_kraus_op hands exactly super_op_to_choi_op(op) to the same routine.
+import types as _types
+_EVL = [sp.Rational(1, 3), sp.Rational(1, 2), sp.Rational(2, 3), sp.Rational(5, 7), sp.Rational(3, 2), sp.Integer(2), sp.Rational(7, 3), sp.Integer(3), sp.Rational(10, 3)]
+
+
+def _tokraus_call(I):
+    C = I['C']; din, dout, n0 = I['din'], I['dout'], I['n0']
+    D = din * dout
+    sym = isinstance(C, SymArray)
+    w = [sp.Integer(0)] * n0 + _EVL[:D - n0]
+    rec = {}
+    if sym:
+        V = I['V']
+
+        def eigh(a):
+            rec['arg'] = a
+            e = np.empty(D, dtype=object); e[:] = w
+            return SymArray(e, np.float64, ALG), V
+        shim_np = ch.np
+        real_linalg = shim_np.linalg
+
+        class L(_types.ModuleType):
+            def __getattr__(s_, k): return getattr(real_linalg, k)
+        Lm = L('lin'); Lm.eigh = eigh
+        shim_np.__dict__['linalg'] = Lm
+        try:
+            K = ch.choi_op_to_kraus_op(C, din)
+            S_ = ch.choi_op_to_super_op(C, din)
+            rec2 = dict(rec); rec.clear()
+            K2 = ch.super_op_to_kraus_op(S_)
+            arg2 = rec.get('arg')
+        finally:
+            shim_np.__dict__['linalg'] = real_linalg
+        return dict(K=K, choi=ch.kraus_op_to_choi_op(K), arg=rec2.get('arg'), K2=K2, arg2=arg2, V=V, w=w)
+    # native: the real eigh; the contract is then op == Choi(K) up to the dropped eigenvalues (here: C is built as V diag(w) V^dagger with unitary V)
+    K = ch.choi_op_to_kraus_op(C, din)
+    K2 = ch.super_op_to_kraus_op(ch.choi_op_to_super_op(C, din))
+    return dict(K=K, choi=ch.kraus_op_to_choi_op(K), arg=C, K2=K2, arg2=C, V=None, w=None)
+
+
+def _tokraus_post(I, r):
+    din, dout, n0 = I['din'], I['dout'], I['n0']; D = din * dout
+    K = SS.arr(r['K'])
+    cl = [('number_and_shape_of_kraus_operators', np.array(list(K.shape)), np.array([D - n0, dout, din]))]
+    if r['V'] is not None:
+        V = SS.arr(r['V'])[:, n0:]; w = r['w'][n0:]
+        ref = np.empty((D, D), dtype=object)
+        for a in range(D):
+            for b in range(D):
+                ref[a, b] = sum(w[k] * V[a, k] * sp.conjugate(V[b, k]) for k in range(D - n0))
+        cl.append(('choi_of_returned_kraus_is_the_spectral_part_above_threshold', SS.arr(r['choi']), ref))
+        cl.append(('eigh_receives_the_choi_operator', SS.arr(r['arg']), SS.arr(I['C'])))
+        cl.append(('super_op_to_kraus_op_hands_super_to_choi_to_the_same_routine', [SS.arr(r['arg2']), SS.arr(r['K2'])], [SS.arr(I['C']), K]))
+    else:
+        cl.append(('choi_of_returned_kraus_is_the_spectral_part_above_threshold', SS.arr(r['choi']), SS.arr(I['C'])))
+        cl.append(('super_op_to_kraus_op_hands_super_to_choi_to_the_same_routine', SS.arr(ch.kraus_op_to_choi_op(r['K2'])), SS.arr(I['C'])))
+    return cl
+
+
+def _tokraus_sample(rng, sh):
+    din, dout, n0 = sh; D = din * dout
+    U = numqi.random.rand_haar_unitary(D, seed=int(rng.integers(0, 2 ** 31)))
+    w = np.array([0.0] * n0 + [float(x) for x in _EVL[:D - n0]])
+    return dict(C=(U * w) @ U.conj().T, V=None, din=din, dout=dout, n0=n0)
+
+
+TOKRAUS = Id('choi_op_to_kraus_op.plumbing', ['numqi.channel._internal:choi_op_to_kraus_op', 'numqi.channel._internal:super_op_to_kraus_op', 'numqi.channel._internal:kraus_op_to_choi_op'],
+             inputs=lambda sh: dict(C=alg.sym_complex('c', (sh[0] * sh[1],) * 2)[0], V=alg.sym_complex('v', (sh[0] * sh[1],) * 2)[0], din=sh[0], dout=sh[1], n0=sh[2]),
+             call=_tokraus_call, post=_tokraus_post, sample=_tokraus_sample, label=lambda sh: f'din={sh[0]},dout={sh[1]},eigenvalues_below_threshold={sh[2]}')
+TOKRAUS.comparable = lambda r: []
+
+CONTRACTS = {c.name: c for c in [EQUIV, CONV, BLOCH, NOISE, TOKRAUS]}
 
 
 def _norm(x):
@@ -211,7 +286,7 @@ def _norm(x):
 def job_identity(tier, rng, cname, shapes):
     out = []
     for sh in shapes:
-        out += verify_identity(CONTRACTS[cname], _norm(sh) if not isinstance(sh, str) else sh, tier, rng, crosscheck=1)
+        out += verify_identity(CONTRACTS[cname], _norm(sh) if not isinstance(sh, str) else sh, tier, rng, crosscheck=0 if cname.endswith('plumbing') else 1)
     return out
 
 
@@ -307,6 +382,9 @@ def jobs(tier):
     bl = [(a, b, t) for (a, b) in sh['dims'] for t in (1, 2) if a >= 2 and b >= 2 and a * b * t <= 12]
     for s in bl:
         J.append(('job_identity', dict(cname='choi_op_to_bloch_map', shapes=[s])))
+    tk = [(1, 2, 0), (2, 1, 1), (2, 2, 0), (2, 2, 2), (2, 3, 1), (3, 2, 3)] + ([(3, 3, 0), (3, 3, 4), (2, 4, 3)] if tier != 'quick' else [])
+    for s_ in tk:
+        J.append(('job_identity', dict(cname='choi_op_to_kraus_op.plumbing', shapes=[s_])))
     for fn in ['hf_dephasing_kraus_op', 'hf_depolarizing_kraus_op', 'hf_amplitude_damping_kraus_op']:
         J.append(('job_identity', dict(cname='noise_channels', shapes=[fn])))
     for din in range(1, 6):
